@@ -24,6 +24,7 @@ by an independent oracle."""
 import json
 import os
 import random
+import re
 import time
 
 from . import common
@@ -40,12 +41,30 @@ OPS = ["get_prompt", "send_input", "send_input_and_read", "send_inputs_interact"
 # --------------------------------------------------------------------------------------------------
 # scenarios
 # --------------------------------------------------------------------------------------------------
-def caller_spec(kind, c, variant=0, chunk=0):
-    """operation of caller c; every caller's commands and outputs carry its own marker.
+def sgr(text, c):
+    """the text as a device that colours its output sends it: every line inside SGR escape sequences (ESC [ 1 ; 3x m ... ESC [ 0 m)"""
+    return "\n".join("\x1b[1;3%dm%s\x1b[0m" % (1 + c % 7, ln) for ln in text.split("\n"))
+
+
+PARTIAL_ESCAPE_AT_END = re.compile(rb"\x1b(\[[0-9;?]*)?$")
+
+
+def cut_escapes(scn, c):
+    """how many reads of caller c's solo operation end INSIDE an escape sequence (the transport cut it) with a further read to come"""
+    sc = [bytes.fromhex(h) for k, h in solo(scn, c)["script"] if k == "r"]
+    return sum(1 for b in sc[:-1] if PARTIAL_ESCAPE_AT_END.search(b))
+
+
+def caller_spec(kind, c, variant=0, chunk=0, deco=False):
+    """operation of caller c; every caller's commands and outputs carry its own marker (deco: the outputs are decorated
+    with SGR escape sequences, which the channel strips: with reads of a few bytes the transport cuts them).
     send_input_and_read with expected_outputs returns AT the expected text by design and leaves the rest
     of the output on the channel for whoever reads next; the scenarios use it only where the expected
     text arrives in the same read as the prompt (whole reads), so that every operation ends at a prompt."""
     tag = "c%d" % c
+    if deco:
+        spec, outs = caller_spec(kind, c, variant, chunk)
+        return spec, {k: sgr(v, c) for k, v in outs.items()}
     if kind == "get_prompt":
         return {"op": "get_prompt"}, {}
     if kind == "send_input":
@@ -78,10 +97,14 @@ def caller_spec(kind, c, variant=0, chunk=0):
     raise ValueError(kind)
 
 
-def make_scenario(stack, lock, kinds, chunk=0, faults=(), timeouts=None, no_terminate=False, variant=0, silent_after=None):
+def sp_kind(spec):
+    return spec["op"]
+
+
+def make_scenario(stack, lock, kinds, chunk=0, faults=(), timeouts=None, no_terminate=False, variant=0, silent_after=None, deco=False):
     callers, outputs = [], {}
     for c, k in enumerate(kinds):
-        spec, outs = caller_spec(k, c, variant, chunk)
+        spec, outs = caller_spec(k, c, variant, chunk, deco)
         callers.append(spec)
         outputs.update(outs)
     faults = list(faults) + [{"caller": c, "kind": "duration"} for c, k in enumerate(kinds) if k == "read_timed"]
@@ -716,6 +739,44 @@ def run(rep):
                 for chunk, variant in ((0, 0), (9, 1)) if (thorough or (OPS.index(a) + OPS.index(b)) % 2 == 0) else ((0, 0),):
                     scn = make_scenario(stack, True, [a, b], chunk=chunk, variant=variant)
                     do_scenario(scn, "none", 600 * effort, 40 * effort)
+    # F11: devices that DECORATE their output (SGR escape sequences around every line, which the channel strips) read in chunks of a
+    # few bytes, so that the transport cuts escape sequences between two reads of the lock holder: the channel then keeps per-channel
+    # READ STATE across the holder's reads (the held-back start of a sequence).  All schedules: the other caller starts / queues for
+    # the lock between any two reads of the holder.  Oracle unchanged: each caller's result = its solo / sequential result -- nothing
+    # a caller does before it holds the lock may touch what the operation in flight has read so far.
+    rng11 = random.Random("C19-decorated-%s" % rep.seed)      # (own stream: derived from the seed only)
+    t11 = time.time()
+    dist["decorated"] = {"scenarios": 0, "reads_cut_inside_escape": 0}
+
+    def decorated(stack, kinds, chunk, dfs, nrand, upd=None, label="decorated"):
+        scn = make_scenario(stack, True, kinds, chunk=chunk, variant=1, deco=True)
+        cuts = sum(cut_escapes(scn, c) for c in range(len(kinds)))
+        if any(k != "get_prompt" for k in kinds) and not cuts:
+            rep.broken.append("generator: no read of the decorated scenario %s chunk %d ends inside an escape sequence" % (kinds, chunk))
+        dist["decorated"]["scenarios"] += 1
+        dist["decorated"]["reads_cut_inside_escape"] += cuts
+        do_scenario(with_faults(scn, upd) if upd else scn, label, dfs, nrand)
+
+    for stack in stacks:
+        for i, a in enumerate(OPS):
+            for j, b in enumerate(OPS):
+                # (a broken tie does not widen this family: the exploration budget is the older families')
+                if thorough:
+                    for chunk in (5, 7):     # (chunk 3 makes traces long enough for the model shards to run out of memory)
+                        decorated(stack, [a, b], chunk, 600 * effort, 40 * effort)
+                elif i <= j:
+                    # (the two callers of a scenario start in either order: an unordered pair covers both as holder / as queued)
+                    decorated(stack, [a, b], (5, 7)[(i + j + rep.seed) % 2], 600 * effort, 40 * effort)
+        for _ in range(4 if thorough else 1):
+            kinds = [rng11.choice(OPS[1:]), rng11.choice(OPS), rng11.choice(OPS[1:])]
+            decorated(stack, kinds, rng11.choice([5, 7]), (300 if thorough else 60) * effort, (30 if thorough else 20) * effort)
+        if stack == "async" or thorough:
+            # an operation ended from outside while it holds back the start of a sequence; the next caller starts clean or
+            # reads on, as in the sequential run (judged as in F6)
+            scn = make_scenario(stack, True, [rng11.choice(OPS[1:]), rng11.choice(OPS[1:])], chunk=5, variant=1, deco=True)
+            upd, label = rng11.choice(ended_early_variants(scn, rng11, False))
+            decorated(stack, [sp_kind(sp) for sp in scn["callers"]], 5, 200 * effort, 20 * effort, upd, "decorated+" + label.split("@")[0])
+    dist["decorated"]["explore_s"] = round(time.time() - t11, 1)
     # F8: two-connection histories.  Connection B (built with channel_lock=True) commandeers connection A (built with
     # / without channel locking; the real Driver.commandeer / AsyncDriver.commandeer), then 2..3 callers run
     # concurrently on B -- or on A, the commandeered connection, where A was built with the lock --: the
@@ -873,6 +934,8 @@ def run(rep):
                 "(own marker per caller) x read chunking x failure (none | k-th transport call of a caller raises, sticky or clean | "
                 "timeout at a parked read/write, closing or NO_TERMINATE | timeout while waiting for the lock | asyncio task cancelled at a "
                 "read / in the lock queue | connection lost + re-open (channel.close, transport.open, channel.open) and retry by the failing caller) "
+                "x device output plain | decorated (every line inside SGR escape sequences, reads of 3/5/7 bytes: >= 1 read of the holder ends inside a sequence, "
+                "counted in coverage `decorated`) "
                 "x operation ending before the prompt (send_inputs_interact with interaction_complete_patterns over a device that refuses the command, reads of "
                 "5/7 bytes so that the pattern is complete before the rest of the message and the prompt are read | send_input_and_read with read_duration "
                 "over a busy device -- output, no prompt --: the duration runs out at a read that is pending on the silent device) as first / second / "
@@ -961,7 +1024,8 @@ MANIFEST = {
             "obligations by computation: the context manager acquires before the body and releases on the normal AND the exceptional exit, "
             "every transport call lies in exactly one lock section, no nesting, one section per call, the lock is created iff channel_lock; "
             "theorem: EVERY path of every operation (any branch, any loop count, any call raising, cancellation) is `acquire; transport events; "
-            "release` or empty. (B) all interleavings of ANY number of such paths of ANY length: a transport event of k happens only while k "
+            "release` or empty; no public operation writes an attribute of the channel object (per-channel read state: the held-back partial "
+            "escape sequence, buffers) outside its lock section, directly or through helpers / properties (ast scan, gen_state_written_outside_lock_*). (B) all interleavings of ANY number of such paths of ANY length: a transport event of k happens only while k "
             "holds the lock, the lock is free when all are through, some caller can always step. (C) reactive callers over ANY device with "
             "failures at ANY point: mutual_exclusion, serialisable (wire trace = concatenation of whole operations in acquisition order, device "
             "and every caller's outcome = those of the sequential run), schedule_independent, lock_released (any outcome frees the lock, the "
@@ -984,7 +1048,10 @@ MANIFEST = {
             "channel locking, then 2-3 concurrent callers use B — or the commandeered A where A was built with the lock —, also with an operation ended "
             "early / the connection lost, re-opened and the operation retried; every trace is replayed "
             "through the model's step function by vm_compute (check_run, proved sound; a retry is a further caller of the model; re-open runs also through "
-            "layer D's oreplay); operations that END BEFORE THE PROMPT with other callers queued / arriving: send_inputs_interact with "
+            "layer D's oreplay); devices that DECORATE their output (every line inside SGR escape sequences) read in chunks of 3/5/7 bytes, so that the "
+            "transport cuts escape sequences between two reads of the lock holder and the channel carries read state (the held-back start of a sequence) "
+            "across them while the other callers start / queue for the lock at every point (every pair of operations, both stacks, all schedules; 3 callers; "
+            "an operation ended from outside), each caller's result = its solo result; operations that END BEFORE THE PROMPT with other callers queued / arriving: send_inputs_interact with "
             "interaction_complete_patterns over a device that refuses the command, read in chunks so that the pattern is complete before the rest of "
             "the message and the prompt are read (later callers are judged against the sequential run of the same callers in the order of "
             "acquisition: they read what the interaction left), and send_input_and_read whose read_duration runs out over a busy device (output, no "
@@ -996,7 +1063,10 @@ MANIFEST = {
             "built with channel_lock=True still refers to a lock object of the right kind when its callers start and when the run ends — it serialises "
             "its callers for its whole life, whatever it commandeered or was commandeered by —, and no "
             "transport call outside a lock section EVER: performed or still pending when the run ends, by the caller or by anything it left behind).",
-    "note": "Early-ending operations: the interaction ended by a completion pattern and the read ended by its duration are paths of the translated "
+    "note": "Decorated outputs: the Coq model has no channel read state (held-back partial escape sequence, buffers) -- it replays the wire "
+            "events of those runs like any other; that every caller's RESULT is its own output is the oracle's verdict there (oracle-only). The state-write "
+            "scan is syntactic: writes through an alias of self or inside a foreign callable that is handed self are reported as `self handed to`, writes by "
+            "the timeout_wrapper decorator (it runs before the lock is taken) are not scanned. Early-ending operations: the interaction ended by a completion pattern and the read ended by its duration are paths of the translated "
             "shapes (break / loop exit inside the lock section), their traces go through check_run like any other (the callers after an early-ended "
             "interaction with their observed scripts, their results being the oracle's business: sequential reference run). A transport read that times "
             "out (event rt) and an elapsed wait (event elapse) are not transport events of the model. Threads started by the code under test are, "
